@@ -38,8 +38,8 @@ static const OpInfo OPS[H_NOPS] = {
   [H_REGHOLD] = { "reghold", 1 },   /* n: a fresh object referenced from a callee-saved register only while n allocations run */
 };
 
-enum { HK_NODE, HK_REF, HK_BOX, HK_ARR, HK_LST, HK_TBLV, HK_TBLK, HK_TREV, HK_TREK, HK_TUP, HK_JUNK, HK_RANGE, HK_SLICE, HK_OWNEDINT, HK_TYPEOBJ, HK_N };
-static const char* HKNAME[] = { "Node", "Ref", "Box", "Array", "List", "TableV", "TableK", "TreeV", "TreeK", "Tuple", "Junk", "Range", "Slice", "OwnedInt", "Type" };
+enum { HK_NODE, HK_REF, HK_BOX, HK_ARR, HK_LST, HK_TBLV, HK_TBLK, HK_TREV, HK_TREK, HK_TUP, HK_JUNK, HK_RANGE, HK_SLICE, HK_OWNEDINT, HK_TYPEOBJ, HK_ARRN, HK_N };
+static const char* HKNAME[] = { "Node", "Ref", "Box", "Array", "List", "TableV", "TableK", "TreeV", "TreeK", "Tuple", "Junk", "Range", "Slice", "OwnedInt", "Type", "ArrayOfNode" };
 enum { CL_MANAGED, CL_ROOT, CL_RAW, CL_UNREG };
 
 /* probe object: plain struct, no Mark instance => scanned conservatively */
@@ -48,6 +48,8 @@ struct Node { var f[3]; int64_t canary; int64_t oid; };
 static void Node_Del(var self);
 static void Node_Assign(var self, var obj);
 static int g_dtor_alloc;
+#define EMBEDDED_NODE (-2)
+static int g_embed;      /* the Node being assigned to is an element stored by value in an Array of Nodes */
 static void Node_New(var self, var args);
 static var Node_T = Cello(Node, Instance(New, Node_New, Node_Del), Instance(Assign, Node_Assign));
 
@@ -127,6 +129,7 @@ static int new_obj(var p, int kind, int cls);
 static void Node_Del(var self) {
   struct Node* n = self;
   int oid = (int)n->oid;
+  if (n->oid == EMBEDDED_NODE) { stat_add("heap.embedded_node_finalised", 1); return; }   /* an element of an Array of Nodes: no ledger entry of its own */
   if (oid < 0 || oid >= g_nobj || O[oid].ptr != self) HV("C06", "C06:finalised-garbage", "Node destructor ran on bytes that are not a ledger object");
   if (O[oid].finalised) LV(oid, "C06:finalised-twice", "Node #%d finalised twice", oid);
   O[oid].finalised = 1;
@@ -145,7 +148,7 @@ static int new_obj(var p, int kind, int cls) {
   o->ptr = p; o->kind = (uint8_t)kind; o->cls = (uint8_t)cls; o->alive = 1;
   o->registered = (cls == CL_MANAGED || cls == CL_ROOT);
   o->owner = -1; o->e[0] = o->e[1] = o->e[2] = -1; o->cidx = -1;
-  if (kind >= HK_ARR && kind <= HK_TUP) {
+  if ((kind >= HK_ARR && kind <= HK_TUP) || kind == HK_ARRN) {
     if (g_ncm >= MAXCONT) HV("C01", "C01:harness:containers", "too many containers");
     o->cidx = g_ncm; CM[g_ncm].n = 0; g_ncm++;
   }
@@ -154,7 +157,7 @@ static int new_obj(var p, int kind, int cls) {
   /* C19: constructing type, heap allocation class, size(type) usable bytes */
   var want = kind == HK_NODE ? Node_T : kind == HK_REF ? Ref : kind == HK_BOX ? Box : kind == HK_ARR ? Array : kind == HK_LST ? List :
              (kind == HK_TBLV || kind == HK_TBLK) ? Table : (kind == HK_TREV || kind == HK_TREK) ? Tree : kind == HK_TUP ? Tuple :
-             kind == HK_RANGE ? Range : kind == HK_SLICE ? Slice : kind == HK_TYPEOBJ ? Type : Int;
+             kind == HK_RANGE ? Range : kind == HK_SLICE ? Slice : kind == HK_TYPEOBJ ? Type : kind == HK_ARRN ? Array : Int;
   if (type_of(p) isnt want) HV("C19", "C19:wrong-type:new", "new %s has type %s", HKNAME[kind], c_str(type_of(p)));
 #if CELLO_ALLOC_CHECK == 1
   if (header(p)->alloc isnt (var)AllocHeap) HV("C19", "C19:wrong-alloc-class:new", "new %s is not tagged AllocHeap", HKNAME[kind]);
@@ -328,7 +331,7 @@ static int candidates(int32_t* out, int cap, int want_container) {
     Obj* o = &O[i];
     if (!o->alive || o->kind == HK_JUNK || o->owner >= 0) continue;
     if (!(o->reach || o->cls == CL_ROOT || o->cls == CL_RAW || o->cls == CL_UNREG)) continue;
-    if (o->kind >= HK_RANGE && want_container == 1) continue;
+    if (o->kind >= HK_RANGE && o->kind != HK_ARRN && want_container == 1) continue;
     if (want_container == 1 && o->cidx < 0 && o->kind != HK_NODE && o->kind != HK_REF) continue;
     out[n++] = i;
   }
@@ -414,16 +417,28 @@ static void Node_Assign(var self, var obj) {
   struct Node* d = self; struct Node* s = obj;
   memcpy(d, s, sizeof *d);
   g_deep_kid[0] = g_deep_kid[1] = g_deep_kid[2] = -1;
+  if (g_embed) { d->oid = EMBEDDED_NODE; d->canary = CANARY; }
   if (!g_deep_copy) return;
   int src = (int)s->oid;
+  /* an element under construction inside a container is not visible to the collector (List nodes, Table scratch entries and
+   * Tree nodes are linked in only once both halves are assigned): a well-behaved Assign that allocates keeps what it has
+   * allocated referenced from its own frame until it returns.  For a free-standing copy the object itself is registered
+   * first, so there nothing is held. */
+  volatile var hold[3] = { NULL, NULL, NULL };
   for (int k = 0; k < 3; k++) {
-    int so = O[src].e[k];
+    int so;
+    if (g_embed || src < 0) {       /* the source may itself be an embedded element: find the child through the pointer */
+      so = s->f[k] ? pmap_get(hdr_of(s->f[k])) : -1;
+      if (so >= 0 && O[so].ptr != s->f[k]) so = -1;
+    } else so = O[src].e[k];
     if (so < 0 || O[so].kind != HK_NODE || !O[so].alive || !obj_traversed(&O[so])) continue;
     d->f[k] = NULL;
     d->f[k] = deep_kid(so);
+    if (g_embed) hold[k] = d->f[k];
     g_deep_kid[k] = (int)((struct Node*)d->f[k])->oid;
     sim_scrub_stack();
   }
+  (void)hold[0]; (void)hold[1]; (void)hold[2];
 }
 
 #ifndef CELLO_NGC
@@ -553,10 +568,57 @@ static void op_newbox(const Op* op) {
   if (depth > 1) stat_add("heap.new_box_chain", 1);
 }
 
+/* ---- an Array whose elements are Nodes stored by value; Node's Assign deep-copies, i.e. allocates managed children while the
+ * container operation is in progress (collection points in the middle of push / push_at / set / assign / copy) */
+static void arrn_sync(int oid) {
+  /* the children the elements point at, read back from the Array itself (this part of the engine judges the collector, not
+   * the sequence semantics of Array, which C04 covers) */
+  CModel* m = &CM[O[oid].cidx];
+  size_t n = len(O[oid].ptr); if (n > MAXE / 3) n = MAXE / 3;
+  m->n = 0;
+  for (size_t i = 0; i < n; i++) {
+    struct Node* e = get(O[oid].ptr, $I((int64_t)i));
+    if (e->canary != CANARY || e->oid != EMBEDDED_NODE) HV("C01", "C01:embedded-element-corrupt", "element %zu of an Array of Nodes is not an element any more", i);
+    for (int k = 0; k < 3; k++) {
+      int so = e->f[k] ? pmap_get(hdr_of(e->f[k])) : -1;
+      if (so >= 0 && (O[so].ptr != e->f[k] || !O[so].alive)) so = -1;
+      m->tgt[m->n++] = so;
+    }
+  }
+}
+static void arrn_store(int oid, int src, int mode, int64_t idx) {
+  size_t n = len(O[oid].ptr);
+  if (n >= MAXE / 3 - 1) mode = 2;
+  if (n == 0) mode = 0;
+  g_embed = 1; g_deep_copy = 1;
+  if (mode == 0) push(O[oid].ptr, O[src].ptr);
+  else if (mode == 1) push_at(O[oid].ptr, O[src].ptr, $I((int64_t)((uint64_t)idx % (n + 1))));
+  else set(O[oid].ptr, $I((int64_t)((uint64_t)idx % n)), O[src].ptr);
+  g_embed = 0; g_deep_copy = 0;
+  arrn_sync(oid);
+  stat_add("heap.array_of_nodes_store", 1);
+}
+static int pick_node(int64_t a) {
+  for (int t = 0; t < 8; t++) { int q = pick_obj(a + t, 0); if (q >= 0 && O[q].kind == HK_NODE && obj_traversed(&O[q])) return q; }
+  return -1;
+}
+
 static void op_newcont(const Op* op) {
   int s = (int)(((op->a[0] % NSLOT) + NSLOT) % NSLOT), cls = cls_norm(op->a[2]);
   int kind = HK_ARR + (int)(((op->a[1] % 7) + 7) % 7);
   var c;
+  if ((op->a[1] / 21) % 5 == 0 && !g_stopped) {
+    int q = pick_node(op->a[0]);
+    if (q >= 0) {
+      c = alloc_by_cls(Array, cls == CL_RAW ? CL_MANAGED : cls, tuple(Node_T));
+      int aoid = new_obj(c, HK_ARRN, cls == CL_RAW ? CL_MANAGED : cls);
+      slot_store(s, aoid);
+      int cnt = 1 + (int)((op->a[1] / 105) % 3);
+      for (int i = 0; i < cnt; i++) { int qq = pick_node(op->a[0] + 3 * i); if (qq >= 0) arrn_store(aoid, qq, i == 2 ? 1 : 0, op->a[2]); }
+      stat_add("heap.new_array_of_nodes", 1);
+      return;
+    }
+  }
   int retyped_from = -1;
   if ((kind == HK_ARR || kind == HK_LST) && (op->a[1] / 7) % 3 == 0) {
     for (int t = 0; t < 6 && retyped_from < 0; t++) { int q = pick_obj(op->a[0] + t, 1);
@@ -611,6 +673,16 @@ static void op_link(const Op* op) {
    * Tuple items are traced precisely (dereferenced), so the program must not let that happen: such Tuples only name
    * objects the collector never reclaims */
   if (s->kind == HK_TUP && !s->registered && O[dst].cls == CL_MANAGED) return;
+  if (s->kind == HK_ARRN) {
+    if (g_stopped) return;
+    if (O[dst].kind == HK_ARRN && dst != src && obj_traversed(&O[dst])) {      /* the whole Array assigned from another one */
+      g_embed = 1; g_deep_copy = 1; assign(s->ptr, d); g_embed = 0; g_deep_copy = 0;
+      arrn_sync(src); stat_add("heap.array_of_nodes_assign", 1); return;
+    }
+    int q = O[dst].kind == HK_NODE && obj_traversed(&O[dst]) ? dst : pick_node(op->a[1]);
+    if (q >= 0) arrn_store(src, q, (int)(ua % 3), (int64_t)(ua / 3));
+    return;
+  }
   if (s->kind == HK_NODE) { int f = (int)(ua % 3); ((struct Node*)s->ptr)->f[f] = d; s->e[f] = dst; stat_add("heap.link_field", 1); return; }
   if (s->kind == HK_REF) { ref(s->ptr, d); s->e[0] = dst; return; }
   if (s->cidx < 0) return;
@@ -655,6 +727,12 @@ static void op_unlink(const Op* op) {
   if (s->kind == HK_NODE) { int f = (int)(ua % 3); ((struct Node*)s->ptr)->f[f] = NULL; s->e[f] = -1; return; }
   if (s->kind == HK_REF) { ref(s->ptr, NULL); s->e[0] = -1; return; }
   if (s->cidx < 0) return;
+  if (s->kind == HK_ARRN) {
+    size_t n = len(s->ptr); if (n == 0) return;
+    int md = (int)(ua % 8);
+    if (md == 7) resize(s->ptr, 0); else if (md < 3) pop(s->ptr); else pop_at(s->ptr, $I((int64_t)((ua / 8) % n)));
+    arrn_sync(src); stat_add("heap.unlink_container", 1); return;
+  }
   CModel* m = &CM[s->cidx];
   if (m->n == 0) return;
   int mode = (int)(ua % 8);
@@ -724,6 +802,14 @@ static void op_copy(const Op* op) {
   int s = (int)(((op->a[0] % NSLOT) + NSLOT) % NSLOT);
   int src = pick_obj(op->a[1], 0); if (src < 0 || g_stopped) return;
   Obj* o = &O[src];
+  if (o->kind == HK_ARRN) {
+    if (!obj_traversed(o)) return;
+    g_embed = 1; g_deep_copy = 1; var cc = copy(o->ptr); g_embed = 0; g_deep_copy = 0;
+    int coid = new_obj(cc, HK_ARRN, CL_MANAGED);
+    slot_store(s, coid);
+    arrn_sync(coid); stat_add("heap.array_of_nodes_copy", 1);
+    return;
+  }
   if (o->kind == HK_BOX || o->kind == HK_JUNK || o->kind >= HK_RANGE) return;   /* copying a Box would give one object two owners; copy of a heap Range assigns into a NULL value */
   if (!obj_traversed(o)) return;   /* fields of raw / unregistered objects may dangle (the collector never saw them) */
   if ((o->kind == HK_TBLK || o->kind == HK_TREK)) return;
